@@ -350,6 +350,12 @@ func (l Lock) verifyBuilderRegistrations() error {
 			return errors.New("missing validator registration", z.Int("i", i))
 		}
 
+		// The lock hash zero-pads these fields, so their lengths (20 byte address, 48 byte public key) must be checked explicitly.
+		if len(val.BuilderRegistration.Message.FeeRecipient) != 20 ||
+			len(val.BuilderRegistration.Message.PubKey) != len(eth2p0.BLSPubKey{}) {
+			return errors.New("invalid validator registration field length", z.Int("i", i))
+		}
+
 		regMsg, err := registration.NewMessage(eth2p0.BLSPubKey(val.PubKey), feeRecipientAddrs[i], uint64(val.BuilderRegistration.Message.GasLimit), val.BuilderRegistration.Message.Timestamp)
 		if err != nil {
 			return err
